@@ -56,7 +56,12 @@ def generate(R, tier):
         if R.random() < 0.1:
             lines, w2 = D.corrupt(R, lines)
             what += "; " + w2
-        yield {"stream": "corrupted", "lines": lines, "fault": what}
+        c = {"stream": "corrupted", "lines": lines, "fault": what}
+        if R.random() < 0.4:          # the same fault in a file that also carries exotic whitespace, non-ASCII comments and \r\n / \r line ends
+            c["stream"] = "corrupted-exotic"
+            c["lines"] = lines = c09.decorate(R, lines)
+            c["terms"] = [R.choice(["\n"] * 6 + ["\r\n", "\r"]) for _ in lines]
+        yield c
 
 
 def model_cases(cases, impl_res, run_model):
@@ -79,7 +84,7 @@ def impl_init():
             p = "/nonexistent/dir/p0f.fp" if c["path"] == "missing" else os.path.dirname(os.path.abspath(__file__))
             Database().load(p)
             return {"ok": "loaded?!"}
-        db = U.load_db("\n".join(c["lines"]) + "\n")
+        db = U.load_db(c09.text_of(c))
         return {"ok": U.dump_db(db)}
     return impl
 
